@@ -58,6 +58,14 @@ Proof. apply forallb_forall. vm_compute. reflexivity. Qed.
 Theorem builtins_classified : forall g, In g go_builtins -> builtin_classified g = true.
 Proof. apply forallb_forall. vm_compute. reflexivity. Qed.
 
+(* the guard of the Error() special case is exactly  invoke /\ Method.Name() = "Error" /\ len(Args) = 0  at every occurrence
+   in isHandledBuiltinCall and doBuiltinCall (a weaker guard removes the call node of every interface method named Error) *)
+Theorem error_guard_exact : forall g, In g error_guards -> guard_exact g = true.
+Proof. apply forallb_forall. vm_compute. reflexivity. Qed.
+
+Theorem error_guard_in_both : guards_cover error_guards = true.
+Proof. vm_compute. reflexivity. Qed.
+
 Theorem row_any_arity_sound : forall tbl name, row_any_arity tbl name = true -> forall n, some_row_transfers_all tbl name n = true.
 Proof. exact Proofs.BuiltinTbl.row_any_arity_sound. Qed.
 
